@@ -79,6 +79,16 @@ async fn read_event_buffer(
     let mut guard = file.lock_read().await.map_err(|e| e.error)?;
 
     let offset = record.value();
+
+    // A corrupt record must not make us allocate
+    // more than the file can hold
+    let file_len = vfs::metadata(file_path.as_ref()).await?.len();
+    if offset.start > offset.end || offset.end > file_len {
+        return Err(std::io::Error::other(
+            "event record is out of bounds",
+        )
+        .into());
+    }
     let row_len = offset.end - offset.start;
 
     guard.seek(SeekFrom::Start(offset.start)).await?;
